@@ -45,6 +45,31 @@ def np_state_digest():
     return hashlib.sha1(repr((s[0], s[1].tolist(), s[2], s[3], s[4])).encode()).hexdigest()
 
 
+class _Abort(Exception):
+    pass
+
+
+def _aborted_call(G):
+    """an event-driven simulation on the same graph that dies half-way (the user's rule raises while events are queued):
+    whatever it leaves behind must not leak into later calls"""
+    import EoN
+    nodes = list(G.nodes())
+    if not nodes:
+        return
+    cnt = [0]
+
+    def trans(u, v):
+        cnt[0] += 1
+        if cnt[0] > 2:
+            raise _Abort()
+        return 0.25
+
+    try:
+        EoN.fast_nonMarkov_SIR(G, trans_time_fxn=trans, rec_time_fxn=lambda u: 1.0, initial_infecteds=nodes[:3], tmax=50)
+    except _Abort:
+        pass
+
+
 def prop_case(case):
     sim = case['sim']
     fails = []
@@ -81,6 +106,7 @@ def prop_case(case):
         other['p'] = 0.5 if case['p'] != 0.5 else 0.9
         other['I0'] = case['I0'][::-1][:1] or case['I0']
         simrun.call(other, True, budget=CallBudget(200000), G=G)
+        _aborted_call(G)
         a2 = out_digest(case, simrun.call(case, False, budget=CallBudget(200000), G=G), False)
         if a1 != a2:
             fails.append(Failure('%s:depends-on-earlier-calls' % sim, 'same seeds, same graph object: the result changes after a different simulation was run on that graph in between'))
